@@ -175,6 +175,8 @@ def spFnK : SpOp → Params → Params
   | .set n v => (·.set n v)
   | .del n => (·.del n)
   | .del2 n v => (·.del2 n v)
+  | .remove n => (·.del n)
+  | .remove2 n v => (·.del2 n v)
   | .sort => sortK
   | .clear => (·.clear)
   | .parse q => fun _ => { list := formParseK true q, isSorted := false }
@@ -196,13 +198,18 @@ def stepRK (idna : Idna) (op : Op) (st : RObj × RObj) : (RObj × RObj) × Bool 
       | .str eb ub =>
         match parseRK idna {} eb ub none with
         | (b, true) => parseRK idna o e units (some b.rep)
-        | (_, false) => (o, false)
+        | (_, false) => parseRK idna o e units (some none)
     (setSlot st k res.1, res.2)
   | .set k s e units =>
     let res := setRK idna (getSlot st k) s e units
     (setSlot st k res.1, res.2)
   | .searchParams k => (setSlot st k (searchParamsRK (getSlot st k)), true)
-  | .sp k f => (setSlot st k (spApplyRK (getSlot st k) (spFnK f)), true)
+  | .sp k f => (setSlot st k (spApplyRK (getSlot st k) (spFnK f) f.always), true)
+  | .spAssign k list sorted =>
+    (setSlot st k (spApplyRK (getSlot st k) (fun _ => { list := list, isSorted := sorted })), true)
+  | .spSafeAssign k list sorted =>
+    (setSlot st k (spApplyRK (getSlot st k) (fun _ => { list := list, isSorted := sorted })), true)
+  | .searchParamsRvalue k => (setSlot st k (getSlot st k).searchParamsRvalue, true)
   | .clear k => (setSlot st k (getSlot st k).clear, true)
   | .copyAssign d s =>
     if d = s then (st, true) else (setSlot st d (copyAssignRK (getSlot st d) (getSlot st s)), true)
@@ -225,6 +232,9 @@ theorem stepRK_eq (idna : Idna) (op : Op) (st : RObj × RObj) : stepRK idna op s
   | set k s e units => simp only [stepRK, stepR, setRK_eq] <;> rfl
   | searchParams k => simp only [stepRK, stepR, searchParamsRK_eq] <;> rfl
   | sp k f => simp only [stepRK, stepR, spApplyRK_eq, spFnK_eq] <;> rfl
+  | spAssign k list sorted => simp only [stepRK, stepR, spApplyRK_eq] <;> rfl
+  | spSafeAssign k list sorted => simp only [stepRK, stepR, spApplyRK_eq] <;> rfl
+  | searchParamsRvalue k => rfl
   | clear k => rfl
   | copyAssign d s => simp only [stepRK, stepR, copyAssignRK_eq] <;> rfl
   | copyConstruct d s => rfl
@@ -344,13 +354,18 @@ def stepUK (idna : Idna) (op : Op) (st : UrlObj × UrlObj) : (UrlObj × UrlObj) 
       | .str eb ub =>
         match parseUK idna {} eb ub none with
         | (b, true) => parseUK idna o e units (some b.url)
-        | (_, false) => (o, false)
+        | (_, false) => parseUK idna o e units (some none)
     (setSlot st k res.1, res.2)
   | .set k s e units =>
     let res := setUK idna (getSlot st k) s e units
     (setSlot st k res.1, res.2)
   | .searchParams k => (setSlot st k (searchParamsUK (getSlot st k)), true)
-  | .sp k f => (setSlot st k (spApplyUK (getSlot st k) (spFnK f)), true)
+  | .sp k f => (setSlot st k (spApplyUK (getSlot st k) (spFnK f) f.always), true)
+  | .spAssign k list sorted =>
+    (setSlot st k (spApplyUK (getSlot st k) (fun _ => { list := list, isSorted := sorted })), true)
+  | .spSafeAssign k list sorted =>
+    (setSlot st k (spApplyUK (getSlot st k) (fun _ => { list := list, isSorted := sorted })), true)
+  | .searchParamsRvalue k => (setSlot st k (uSearchParamsRvalue (getSlot st k)), true)
   | .clear k => (setSlot st k (getSlot st k).clear, true)
   | .copyAssign d s =>
     if d = s then (st, true) else (setSlot st d (copyAssignUK (getSlot st d) (getSlot st s)), true)
@@ -373,6 +388,9 @@ theorem stepUK_eq (idna : Idna) (op : Op) (st : UrlObj × UrlObj) : stepUK idna 
   | set k s e units => simp only [stepUK, stepU, setUK_eq] <;> rfl
   | searchParams k => simp only [stepUK, stepU, searchParamsUK_eq] <;> rfl
   | sp k f => simp only [stepUK, stepU, spApplyUK_eq, spFnK_eq] <;> rfl
+  | spAssign k list sorted => simp only [stepUK, stepU, spApplyUK_eq] <;> rfl
+  | spSafeAssign k list sorted => simp only [stepUK, stepU, spApplyUK_eq] <;> rfl
+  | searchParamsRvalue k => rfl
   | clear k => rfl
   | copyAssign d s => simp only [stepUK, stepU, copyAssignUK_eq] <;> rfl
   | copyConstruct d s => rfl
